@@ -10,7 +10,7 @@ IMPORTS = ['Base.Vec', 'C11.Model', 'C11.Corr']
 
 
 def translate():
-    return {'Gen/Solvers.v': TS.translate()}
+    return {'Gen/Solvers.v': TS.translate(), 'Gen/SolversL.v': TS.translate_l()}
 
 
 # ---------------------------------------------------------------- generators
@@ -114,7 +114,7 @@ def _niter(rng, tier, k):
 
 # ------------------------------------------------------------- per solver
 def gen_fk(rng, tier, cs):
-    n_cases = 60 if tier == 'quick' else 600
+    n_cases = 60 if tier == 'quick' else 400
     for k in range(n_cases):
         n = rng.randint(1, 4)
         role = rng.choice(['prox', 'cc', 'grad'])
@@ -136,7 +136,7 @@ def gen_fk(rng, tier, cs):
 
 def gen_admm(rng, tier, cs):
     from odl.solvers.nonsmooth.admm import admm_linearized, admm_linearized_simple
-    for k in range(24 if tier == 'quick' else 240):
+    for k in range(24 if tier == 'quick' else 160):
         n, m = _sizes(rng, tier)
         M = _mat(rng, m, n)
         f, g = _fk(rng, n, 'prox'), _fk(rng, m, 'prox')
@@ -163,7 +163,7 @@ def gen_admm(rng, tier, cs):
 
 def gen_adup(rng, tier, cs):
     from odl.solvers.nonsmooth.alternating_dual_updates import adupdates, adupdates_simple
-    for k in range(20 if tier == 'quick' else 200):
+    for k in range(20 if tier == 'quick' else 140):
         n, _ = _sizes(rng, tier)
         nops = rng.choice([1, 2, 2, 3]) if k else 0
         ms = [rng.randint(1, 3) for _ in range(nops)]
@@ -209,7 +209,7 @@ def gen_adup(rng, tier, cs):
 
 def gen_dpdc(rng, tier, cs):
     from odl.solvers.nonsmooth.difference_convex import doubleprox_dc, doubleprox_dc_simple
-    for k in range(20 if tier == 'quick' else 200):
+    for k in range(20 if tier == 'quick' else 140):
         n, m = _sizes(rng, tier)
         M = _mat(rng, m, n)
         f, g, phi = _fk(rng, n, 'prox'), _fk(rng, m, 'cc'), _fk(rng, n, 'grad')
@@ -249,7 +249,7 @@ def gen_dpdc(rng, tier, cs):
 
 def gen_pdhg(rng, tier, cs):
     from odl.solvers.nonsmooth.primal_dual_hybrid_gradient import pdhg
-    for k in range(24 if tier == 'quick' else 240):
+    for k in range(24 if tier == 'quick' else 160):
         n, m = _sizes(rng, tier)
         M = _mat(rng, m, n)
         f, g = _fk(rng, n, 'prox'), _fk(rng, m, 'cc')
@@ -310,7 +310,7 @@ def _proj(rng):
 
 def gen_lw(rng, tier, cs):
     from odl.solvers.iterative.iterative import landweber
-    for k in range(16 if tier == 'quick' else 160):
+    for k in range(16 if tier == 'quick' else 110):
         n, m = _sizes(rng, tier)
         M = _mat(rng, m, n)
         rhs = _vec(rng, m)
@@ -347,7 +347,7 @@ def gen_lw(rng, tier, cs):
 
 def gen_kz(rng, tier, cs):
     from odl.solvers.iterative.iterative import kaczmarz
-    for k in range(16 if tier == 'quick' else 160):
+    for k in range(16 if tier == 'quick' else 110):
         n, _ = _sizes(rng, tier)
         nops = rng.choice([1, 2, 3])
         ms = [rng.randint(1, 3) for _ in range(nops)]
@@ -384,7 +384,7 @@ def gen_kz(rng, tier, cs):
 
 def gen_pg(rng, tier, cs):
     from odl.solvers.nonsmooth.proximal_gradient_solvers import proximal_gradient
-    for k in range(20 if tier == 'quick' else 200):
+    for k in range(20 if tier == 'quick' else 140):
         n = rng.randint(1, 4)
         f, g = _fk(rng, n, 'prox'), _fk(rng, n, 'grad')
         gamma = _dy(rng)
@@ -421,7 +421,7 @@ def gen_pg(rng, tier, cs):
 
 def gen_em(rng, tier, cs):
     from odl.solvers.iterative.statistical import mlem, osmlem
-    for k in range(16 if tier == 'quick' else 160):
+    for k in range(16 if tier == 'quick' else 110):
         n, _ = _sizes(rng, tier)
         nops = rng.choice([1, 1, 2, 3])
         ms = [rng.randint(1, 3) for _ in range(nops)]
@@ -472,7 +472,7 @@ def gen_em(rng, tier, cs):
 
 def gen_sd(rng, tier, cs):
     from odl.solvers.smooth.gradient import steepest_descent
-    for k in range(16 if tier == 'quick' else 160):
+    for k in range(16 if tier == 'quick' else 110):
         n = rng.randint(1, 4)
         f = _fk(rng, n, 'grad')
         step = _dy(rng, (0.0625, 0.125, 0.25, 0.5))
@@ -502,7 +502,7 @@ def gen_sd(rng, tier, cs):
 
 def gen_dr(rng, tier, cs):
     from odl.solvers.nonsmooth.douglas_rachford import douglas_rachford_pd
-    for k in range(20 if tier == 'quick' else 200):
+    for k in range(20 if tier == 'quick' else 140):
         n, _ = _sizes(rng, tier)
         nops = rng.choice([0, 1, 2, 2, 3])
         ms = [rng.randint(1, 3) for _ in range(nops)]
@@ -548,7 +548,7 @@ def gen_dr(rng, tier, cs):
 def gen_dca(rng, tier, cs):
     from odl.solvers.nonsmooth.difference_convex import dca, prox_dca
     import odl
-    for k in range(16 if tier == 'quick' else 160):
+    for k in range(16 if tier == 'quick' else 110):
         n = rng.randint(1, 4)
         prox = bool(k % 2)
         sp_ = _rn(n)
@@ -592,7 +592,7 @@ def gen_dca(rng, tier, cs):
 
 def gen_apg(rng, tier, cs):
     from odl.solvers.nonsmooth.proximal_gradient_solvers import accelerated_proximal_gradient
-    for k in range(12 if tier == 'quick' else 100):
+    for k in range(12 if tier == 'quick' else 70):
         n = rng.randint(1, 4)
         f, g = _fk(rng, n, 'prox'), _fk(rng, n, 'grad')
         gamma = _dy(rng)
@@ -616,7 +616,7 @@ def gen_apg(rng, tier, cs):
 
 def gen_pdacc(rng, tier, cs):
     from odl.solvers.nonsmooth.primal_dual_hybrid_gradient import pdhg
-    for k in range(12 if tier == 'quick' else 100):
+    for k in range(12 if tier == 'quick' else 70):
         n, m = _sizes(rng, tier)
         M = _mat(rng, m, n)
         f, g = _fk(rng, n, 'prox'), _fk(rng, m, 'cc')
@@ -643,12 +643,104 @@ def gen_pdacc(rng, tier, cs):
                 t_ /= th
                 s_ *= th
             thetas.append(th)
+        # resumption: the caller replays the scalar recursion to get the step sizes the first call reached
+        sp = []
+        fo, go = f.build(L.domain), g.build(L.range)
+        for n1 in range(N + 1):
+            x = L.domain.element(x0)
+            xr, yy = x.copy(), L.range.zero()
+            pdhg(x, fo, go, L, n1, tau, sigma, x_relax=xr, y=yy, **{which: gam})
+            t1_, s1_ = (taus[n1], sigmas[n1]) if n1 < N else (t_, s_)
+            pdhg(x, fo, go, L, N - n1, t1_, s1_, x_relax=xr, y=yy, **{which: gam})
+            sp.append(np.asarray(x).tolist())
         cs.add('{| kw_nc := %d; kw_M := %s; kw_f := %s; kw_g := %s; kw_tau := %s; kw_sigma := %s; kw_theta := %s; '
-               'kw_x := %s; kw_n := %d; kw_tr := %s |}'
-               % (n, C.qss(M), f.coq, g.coq, C.qs(taus), C.qs(sigmas), C.qs(thetas), C.qs(x0), N, C.qss(t1)),
+               'kw_x := %s; kw_n := %d; kw_tr := %s; kw_split := %s |}'
+               % (n, C.qss(M), f.coq, g.coq, C.qs(taus), C.qs(sigmas), C.qs(thetas), C.qs(x0), N, C.qss(t1), C.qss(sp)),
                {'solver': 'pdhg (accelerated)', 'M': M, 'f': f.desc, 'g': g.desc, 'tau': tau, 'sigma': sigma,
                 which: gam, 'x0': x0, 'niter': N},
                ('pdacc', n, m, f.coq, g.coq, tau, sigma, which, gam, N, tuple(x0)) if N > 0 else None)
+
+
+def _perms(seed, nops, N):
+    """the permutations np.random.permutation(range(nops)) yields after np.random.seed(seed)"""
+    np.random.seed(seed)
+    return [[int(i) for i in np.random.permutation(range(nops))] for _ in range(N)]
+
+
+def gen_kzr(rng, tier, cs):
+    from odl.solvers.iterative.iterative import kaczmarz
+    for k in range(12 if tier == 'quick' else 70):
+        n, _ = _sizes(rng, tier)
+        nops = rng.choice([2, 3, 3, 4])
+        ms = [rng.randint(1, 3) for _ in range(nops)]
+        Ms = [_mat(rng, m, n) for m in ms]
+        rhs = [_vec(rng, m) for m in ms]
+        om = [_dy(rng, (0.0625, 0.125, 0.25, 0.5)) for _ in ms]
+        pc, pf, pd = _proj(rng)
+        x0 = _vec(rng, n)
+        N = max(1, min(_niter(rng, tier, k), 10))
+        seed = rng.randint(0, 10 ** 6)
+        orders = _perms(seed, nops, N)
+        ops = [_mop(M, n) for M in Ms]
+        rh = [o.range.element(r) for o, r in zip(ops, rhs)]
+        dom = _rn(n)
+        t1, c1 = _rec()
+        x = dom.element(x0)
+        np.random.seed(seed)
+        kaczmarz(ops, x, rh, N, omega=om, projection=pf, random=True, callback=c1)
+        sp = []
+        for n1 in range(N + 1):      # the second call continues the stream of the global generator
+            x = dom.element(x0)
+            np.random.seed(seed)
+            kaczmarz(ops, x, rh, n1, omega=om, projection=pf, random=True)
+            kaczmarz(ops, x, rh, N - n1, omega=om, projection=pf, random=True)
+            sp.append(np.asarray(x).tolist())
+        cs.add('{| kzr_nc := %d; kzr_Ms := %s; kzr_rhs := %s; kzr_omega := %s; kzr_proj := %s; kzr_orders := %s; '
+               'kzr_x := %s; kzr_n := %d; kzr_outer := %s; kzr_split := %s |}'
+               % (n, C.lst(Ms, C.qss), C.qss(rhs), C.qs(om), pc, C.lst(orders, C.nats) + '%nat', C.qs(x0), N,
+                  C.qss(t1), C.qss(sp)),
+               {'solver': 'kaczmarz(random=True)', 'Ms': Ms, 'rhs': rhs, 'omega': om, 'projection': pd, 'seed': seed,
+                'orders': orders, 'x0': x0, 'niter': N},
+               ('kzr', n, tuple(ms), tuple(om), pd, seed, N, tuple(x0)))
+
+
+def gen_adr(rng, tier, cs):
+    from odl.solvers.nonsmooth.alternating_dual_updates import adupdates, adupdates_simple
+    for k in range(12 if tier == 'quick' else 70):
+        n, _ = _sizes(rng, tier)
+        nops = rng.choice([2, 3, 3])
+        ms = [rng.randint(1, 3) for _ in range(nops)]
+        if rng.random() < 0.6:
+            ms[1] = ms[0]
+        Ms = [_mat(rng, m, n) for m in ms]
+        gs = [_fk(rng, m, 'cc') for m in ms]
+        inner = [_dy(rng) for _ in ms]
+        step = _dy(rng, (0.5, 1.0, 2.0))
+        x0 = _vec(rng, n)
+        N = max(1, min(_niter(rng, tier, k), 8))
+        seed = rng.randint(0, 10 ** 6)
+        orders = _perms(seed, nops, N)
+        keys = [ms.index(m) for m in ms]
+        Ls = [_mop(M, n) for M in Ms]
+        go = [g.build(Li.range) for g, Li in zip(gs, Ls)]
+        dom = _rn(n)
+        t1, c1 = _rec()
+        x = dom.element(x0)
+        np.random.seed(seed)
+        adupdates(x, go, Ls, step, inner, N, random=True, callback=c1)
+        ref = []
+        for j in range(1, N + 1):
+            x = dom.element(x0)
+            np.random.seed(seed)
+            adupdates_simple(x, go, Ls, step, inner, j, random=True)
+            ref.append(np.asarray(x).tolist())
+        cs.add('{| kdr_nc := %d; kdr_Ms := %s; kdr_gs := %s; kdr_inner := %s; kdr_keys := %s; kdr_step := %s; '
+               'kdr_orders := %s; kdr_x := %s; kdr_n := %d; kdr_outer := %s; kdr_ref := %s |}'
+               % (n, C.lst(Ms, C.qss), C.lst([g.coq for g in gs]), C.qs(inner), C.nats(keys) + '%nat', C.q(step),
+                  C.lst(orders, C.nats) + '%nat', C.qs(x0), N, C.qss(t1), C.qss(ref)),
+               {'solver': 'adupdates(random=True)', 'Ms': Ms, 'g': [g.desc for g in gs], 'inner': inner,
+                'stepsize': step, 'seed': seed, 'orders': orders, 'x0': x0, 'niter': N},
+               ('adr', n, tuple(ms), tuple(g.coq for g in gs), step, seed, N, tuple(x0)))
 
 
 GENS = [('fk', 'check_fk', 'case_fk', gen_fk), ('admm', 'check_admm', 'case_admm', gen_admm),
@@ -658,7 +750,8 @@ GENS = [('fk', 'check_fk', 'case_fk', gen_fk), ('admm', 'check_admm', 'case_admm
         ('mlem', 'check_em', 'case_em', gen_em), ('steepest_descent', 'check_sd', 'case_sd', gen_sd),
         ('douglas_rachford_pd', 'check_dr', 'case_dr', gen_dr), ('dca', 'check_dca', 'case_dca', gen_dca),
         ('accelerated_proximal_gradient', 'check_apg', 'case_apg', gen_apg),
-        ('pdhg_accelerated', 'check_pdacc', 'case_pdacc', gen_pdacc)]
+        ('pdhg_accelerated', 'check_pdacc', 'case_pdacc', gen_pdacc),
+        ('kaczmarz_random', 'check_kzr', 'case_kzr', gen_kzr), ('adupdates_random', 'check_adr', 'case_adr', gen_adr)]
 
 
 def correspondence(rng, tier):
@@ -764,13 +857,25 @@ def _flat(x):
     return np.asarray(x, dtype=float).ravel().copy()
 
 
-def _close(a, b):
+def _scale(*arrs):
+    """1 + the largest finite magnitude occurring in a run (all state components, all iterates): rounding
+    errors of the large components leak into the small ones through the operators"""
+    m = 0.0
+    for a in arrs:
+        a = np.asarray(a, dtype=float)
+        if a.size and np.all(np.isfinite(a)):
+            m = max(m, float(np.max(np.abs(a))))
+    return 1.0 + m
+
+
+def _close(a, b, scale=None):
     a, b = np.asarray(a, dtype=float), np.asarray(b, dtype=float)
     if a.shape != b.shape:
         return False
     if a.size == 0:
         return True
-    scale = 1.0 + (np.nanmax(np.abs(b)) if np.all(np.isfinite(b)) else 0.0)
+    if scale is None:
+        scale = 1.0 + (np.nanmax(np.abs(b)) if np.all(np.isfinite(b)) else 0.0)
     return bool(np.allclose(a, b, rtol=0, atol=1e-10 * scale, equal_nan=True))
 
 
@@ -832,7 +937,8 @@ def probe_eval(d):
             x, y2 = _el(K.domain, d['x0']), _el(K.range, d['y0'])
             doubleprox_dc_simple(x, y2, f, phi, g, K, j, d['gamma'], d['mu'])
             t2.append(_flat(x))
-        ok = len(t1) == N and _close(t1, t2) and (N == 0 or _close(_flat(y), _flat(y2)))
+        sc = _scale(t2, _flat(y2)) if N else 1.0
+        ok = len(t1) == N and _close(t1, t2, sc) and (N == 0 or _close(_flat(y), _flat(y2), sc))
         return ok, np.array(t1).tolist(), np.array(t2).tolist()
 
     if kind == 'resume-proximal_gradient-callable-lam':
@@ -990,6 +1096,7 @@ def probe_eval(d):
     tr, cb = rec()
     run(st, N, cb)
     want = [_flat(v) for v in st]
+    sc = _scale(tr, *want)
     ok = True
     if cb_per_iter is not None:
         ok = ok and len(tr) == N * cb_per_iter
@@ -1004,7 +1111,7 @@ def probe_eval(d):
         run(st, n1, cb1)
         run(st, N - n1, cb1)
         got = [_flat(v) for v in st]
-        ok = ok and all(_close(a, b) for a, b in zip(got, want)) and _close(tr1, tr)
+        ok = ok and all(_close(a, b, sc) for a, b in zip(got, want)) and _close(tr1, tr, sc)
         if not ok:
             break
     return ok, [g.tolist() for g in got], [w.tolist() for w in want]
@@ -1196,7 +1303,7 @@ def _adup_stepsize_probes(rng, count, base=None):
 
 def probes(rng, tier):
     out = []
-    reps = 1 if tier == 'quick' else 8
+    reps = 1 if tier == 'quick' else 6
 
     def add(d, key, what):
         try:
@@ -1418,41 +1525,40 @@ ASSUMPTIONS = ['exact arithmetic: the model iterates are the unrounded ones; imp
                'completely before y is overwritten: the out-aliasing contract (prox(x, out=x)) is C10\'s subject, '
                'the call protocol C03\'s, lincomb C01\'s',
                'operators/proximals/gradients/projections are deterministic functions of their argument (no hidden '
-               'state); step sizes are the same in both calls of a split run (default omega/tau/sigma are NOT: '
-               'recorded finding)',
-               'translator configuration: callback given; random=False; scalar inner step sizes in the regenerated '
-               'adupdates programs (the hand model and its theorem also cover array-valued ones); the line search of '
+               'state); step sizes are the same in both calls of a split run',
+               'translator configuration: callback given; scalar inner step sizes in the regenerated adupdates '
+               'programs (the hand model and its theorem also cover array-valued ones); the line search of '
                'steepest_descent is a ConstantLineSearch; scalar recursions (accelerated pdhg: tau, sigma, theta; '
-               'FISTA: t, alpha) are parameters of the interpretation, only their position relative to the vector '
-               'statements is regenerated',
-               'random-order variants (kaczmarz/adupdates random=True) and line-search objects are not modelled '
-               '(probes check their callback counts)']
-TRUSTED = ['translate/solvers.py (Python ast -> C11/Syntax.v programs, fail closed; preambles of the list solvers '
-           'pinned by hash)',
-           'C11/Interp.v: semantics of names bound to mutable vector objects (Bind/Alias/Write/return marker), '
-           'canonicalisation',
-           'C11/Model.v sweeps over lists of operators (ad_sweep_opt, kz_sweep, em_sweep) and the Douglas-Rachford '
-           'model: hand transcription tied to the source by the correspondence on every run',
+               'FISTA: t, alpha) and the permutations drawn with random=True are parameters of the interpretation, '
+               'only their position relative to the vector statements is regenerated',
+               'list language: a comprehension whose element expression creates an object yields n new objects '
+               '(identity OList name j), a dict comprehension one new object per distinct range (ODict name k); '
+               'which operators share a range is the parameter rkey']
+TRUSTED = ['translate/solvers.py (Python ast -> C11/Syntax.v and C11/SyntaxL.v programs, fail closed)',
+           'C11/Interp.v and C11/InterpL.v: semantics of names bound to mutable vector objects '
+           '(Bind/Alias/Write/return marker; lists and dicts of objects with structured identities)',
            'C11/Corr.v functional family (prox / conjugate prox / gradient formulas), itself checked against the '
            'library by the fk case set']
 LEVEL_TEXT = ('Proof: the preamble and loop body of admm_linearized, admm_linearized_simple, doubleprox_dc, '
               'doubleprox_dc_simple, dca, prox_dca, pdhg (constant and accelerated steps), landweber, '
-              'proximal_gradient, accelerated_proximal_gradient, steepest_descent and the per-operator inner loops of '
-              'adupdates, adupdates_simple, kaczmarz, osmlem are REGENERATED from the source on every run as programs '
-              'over names bound to mutable vector objects; Coq proves by symbolic execution that they compute the '
-              'loop-body models for every interpretation of the operators, and then, for EVERY iteration count, start '
-              'point, number of operators and temporary-sharing pattern: optimised and reference implementations '
-              'produce the same callback-observed iterates and the same caller-visible results (ADMM invariant '
-              'tmp_ran = L x); n then m iterations equal n+m iterations for landweber, kaczmarz (fixed order), '
-              'mlem/osmlem, steepest descent with constant step (early return included), dca, prox_dca, '
-              'doubleprox_dc, proximal_gradient with constant or caller-shifted lam, and pdhg through the caller\'s '
-              'x, x_relax, y objects; the callback log has one entry per (sub-)iteration and its k-th entry is the '
-              'k-th iterate (Douglas-Rachford: the k-th callback is what a run with niter=k+1 returns).  Refuted '
-              '(recorded findings): resumption of proximal_gradient with a callable lam; resumption with default '
-              'step sizes (operator-norm estimate never cached).  An in-Coq correspondence on iterates and on all '
-              'splittings ties the hand-written parts to the code.')
+              'proximal_gradient, accelerated_proximal_gradient, steepest_descent, and -- in a list language with '
+              'comprehensions creating objects -- adupdates, adupdates_simple, kaczmarz, osmlem (fixed and random '
+              'order) and douglas_rachford_pd are REGENERATED from the source on every run as programs over names '
+              'bound to mutable vector objects; Coq proves by symbolic execution and induction over the operator list '
+              'that they compute the loop-body models for every interpretation of the operators, and then, for EVERY '
+              'iteration count, start point, number of operators and temporary-sharing pattern: optimised and '
+              'reference implementations produce the same callback-observed iterates and the same caller-visible '
+              'results (ADMM invariant tmp_ran = L x; adupdates at heap level for all n, also under any stream of '
+              'permutations); n then m iterations equal n+m iterations for landweber, kaczmarz (fixed order, or random '
+              'order continuing the permutation stream), mlem/osmlem, steepest descent with constant step (early '
+              'return included), dca, prox_dca, doubleprox_dc, proximal_gradient with constant or caller-shifted lam, '
+              'pdhg through the caller\'s x, x_relax, y objects and accelerated pdhg with the reached step sizes '
+              'carried; the callback log has one entry per (sub-)iteration and its k-th entry is the k-th iterate '
+              '(Douglas-Rachford: the k-th callback is what a run with niter=k+1 returns).  Refuted (recorded '
+              'finding): resumption of proximal_gradient with a callable lam.  An in-Coq correspondence on iterates '
+              'and on all splittings ties the models to the code.')
 LEVEL_NOTE = ('Trusted: the translator (fail-closed, small grammar), the interpreter semantics (value-level in-place '
-              'calls: C01/C03/C10), the hand-written sweeps over operator lists and the Douglas-Rachford model '
-              '(validated by the correspondence), exact arithmetic.  Axioms: classical reals + funext as printed.')
+              'calls: C01/C03/C10; identity scheme of list/dict objects), exact arithmetic.  Axioms: classical reals + '
+              'funext as printed.')
 TECHNIQUE = ('source-regenerated heap-level programs + symbolic execution in Coq, induction on niter with loop '
              'invariants (simulation), in-Coq differential correspondence on iterates and all splittings')
